@@ -24,22 +24,39 @@ def gen_case(rng):
     return {"before": fstree.spec_json(spec), "after": fstree.spec_json(after), "log": log, "opts": opts}
 
 
-def run_case(ctx, case):
-    """returns (P, A, impl_triple or error)"""
+def run_case(ctx, case, model=None):
+    """returns (P, A, impl_triple or error).  P (the link's products) and A (the expected fresh record) are
+    computed from scans of the two real trees by the PROVED recorder model of C10, so the implementation's
+    recorder is under test here too: in_toto_match_products must report the differences between P and the
+    tree as the specification records it."""
     import in_toto.runlib as rl
     from in_toto.models.link import Link
+    from harness import modelrec
     o = case["opts"]
     paths = o["paths"] if o["paths"] is not None else ["."]
+    model = model or core.Model()
     with fstree.scratch(ctx, "c19") as root:
         fstree.materialize(fstree.spec_from_json(case["before"]), root + "/t0")
         fstree.materialize(fstree.spec_from_json(case["after"]), root + "/t1")
-        try:
-            with fstree.in_dir(root + "/t0"):
-                P = rl.record_artifacts_as_dict(paths, exclude_patterns=o["exclude_patterns"], lstrip_paths=o["lstrip_paths"])
-            with fstree.in_dir(root + "/t1"):
-                A = rl.record_artifacts_as_dict(paths, exclude_patterns=o["exclude_patterns"], lstrip_paths=o["lstrip_paths"])
-        except Exception as e:  # recording failed (prefix collision ...): C10's business
-            return None, None, {"err": "record:" + type(e).__name__}
+        snaps = [modelrec.snapshot(root + "/t0", paths, exclude_patterns=o["exclude_patterns"], lstrip_paths=o["lstrip_paths"],
+                                   follow_symlink_dirs=False),
+                 modelrec.snapshot(root + "/t1", paths, exclude_patterns=o["exclude_patterns"], lstrip_paths=o["lstrip_paths"],
+                                   follow_symlink_dirs=False)]
+        mp, ma = modelrec.resolve(model, snaps)
+        if "ok" not in mp or "ok" not in ma:
+            if mp.get("err") in ("Unmodelled", "Diverge") or ma.get("err") in ("Unmodelled", "Diverge"):
+                # outside the recorder model (link cycles ...): fall back to the implementation's recorder
+                try:
+                    with fstree.in_dir(root + "/t0"):
+                        P = rl.record_artifacts_as_dict(paths, exclude_patterns=o["exclude_patterns"], lstrip_paths=o["lstrip_paths"])
+                    with fstree.in_dir(root + "/t1"):
+                        A = rl.record_artifacts_as_dict(paths, exclude_patterns=o["exclude_patterns"], lstrip_paths=o["lstrip_paths"])
+                except Exception as e:  # noqa
+                    return None, None, {"err": "record:" + type(e).__name__}
+            else:
+                return None, None, {"err": "record:" + str(mp.get("err") or ma.get("err"))}   # prefix collision ...: C10's business
+        else:
+            P, A = mp["ok"], ma["ok"]
         link = Link(name="x", products=P)
         try:
             with fstree.in_dir(root + "/t1"):
@@ -51,14 +68,46 @@ def run_case(ctx, case):
     return P, A, out
 
 
+def pinned_cases():
+    """option combinations whose effect depends on exactly how recording normalises, excludes and strips"""
+    f = lambda b: ["f", b]
+    d = lambda **kw: ["d", kw]
+    t1 = {"out": d(dist=d(**{"readme.txt": f("r")}), x=f("1")), "dist": d(y=f("2")), "top": f("t")}
+    t2 = {"build": d(**{"out.o": f("o")}), "src": d(build=d(**{"rules.py": f("r"), "deep": d(**{"more.py": f("m")})}), **{"main.c": f("c")})}
+    import copy
+    out = []
+    for tree, opts in ((t1, {"paths": None, "exclude_patterns": None, "lstrip_paths": ["out/", "dist/"]}),
+                       (t1, {"paths": ["out", "dist"], "exclude_patterns": None, "lstrip_paths": ["dist/", "out/"]}),
+                       (t2, {"paths": None, "exclude_patterns": ["/build"], "lstrip_paths": None}),
+                       (t2, {"paths": ["src", "build"], "exclude_patterns": ["/build"], "lstrip_paths": None}),
+                       (t2, {"paths": ["."], "exclude_patterns": ["/src/build/deep"], "lstrip_paths": ["src/"]})):
+        for edit in (None, "edit", "add"):
+            after = copy.deepcopy(tree)
+            log = []
+            if edit:
+                # change something deep inside: it must show up in exactly the right report
+                node = after["out"][1]["dist"][1] if "out" in after else after["src"][1]["build"][1]
+                if edit == "edit":
+                    k = sorted(k for k, v in node.items() if v[0] == "f")[0]
+                    node[k] = ["f", node[k][1] + "!"]
+                else:
+                    node["added.txt"] = ["f", "new"]
+                log = [[edit]]
+            out.append({"before": tree, "after": after, "log": log, "opts": opts, "pinned": True})
+    return out
+
+
 def run(ctx):
     n = 2500 if ctx.thorough() else 500
     core.check_props(ctx, ["Props/C19.v"])
-    cases = [gen_case(ctx.rng) for _ in range(n)]
+    from vlib import ties2
+    ties2.run(ctx, "Tie/C19.v")
+    cases = pinned_cases() + [gen_case(ctx.rng) for _ in range(n)]
     reqs, impl, kept = [], [], []
     rec_fail = 0
+    rec_model = core.Model()
     for c in cases:
-        P, A, out = run_case(ctx, c)
+        P, A, out = run_case(ctx, c, rec_model)
         if P is None:
             rec_fail += 1
             continue
@@ -90,7 +139,8 @@ def run(ctx):
     cov = {
         "checker_cmd": "coqc Props/C19.v; extracted Match.match_products vs in_toto.runlib.in_toto_match_products on real trees",
         "trusted_base": core.KERNEL_TB + [
-            "the fresh record A is taken from the real record_artifacts_as_dict (recording itself is C10's model)",
+            "P (the link's products) and the expected fresh record A come from scans of the real trees evaluated by the proved "
+            "recorder model of C10 (extracted Model/Resolve.v); trees outside it fall back to the real recorder",
             "extraction + driver; %d cases re-evaluated by vm_compute" % kn],
         "evaluations": len(reqs), "distinct_nontrivial": len({json.dumps(r[1], sort_keys=True) for r, o in zip(reqs, impl) if "ok" in o and any(o["ok"])}),
         "rule": "random tree, recorded as products; tree edited by 0-3 edits/adds/deletes/renames/same-content rewrites; "
